@@ -12,6 +12,7 @@ import Asn1.Generated
 import Proofs.StreamIter
 import Proofs.StreamRaw
 import Proofs.StreamTyped
+import Proofs.KernelReadTurn
 import Props.C02
 import Props.C09
 
@@ -56,6 +57,33 @@ theorem short_reads_invisible (k : Kind) (hk : k ≠ .bytesIO) (d : Bytes) (clos
     (capOf : Nat → Nat) (pos n : Nat) (hp : pos ≤ d.length) :
     readFromStreamRaw d closed capOf pos n = readAns k d closed pos n :=
   readFromStreamRaw_eq_readAns k hk d closed capOf pos n hp
+
+/-! ### at the source level: one turn of `readFromStream`, translated from /repo on this run -/
+
+/-- one turn of the `while True:` loop of `readFromStream` (codec/streaming.py; translated by gen/py2lean.py into
+    `GenK.readTurn`: the stream's position threaded through, what `substrate.read(n)` answers at a position a function
+    parameter) on a raw stream that has received `d`, is `closed` or still open, and hands out at most `cap + 1` octets per
+    call, is the model's `readFromStreamRaw` -/
+theorem source_read_turn_is_model (d : Bytes) (closed : Bool) (cap pos n : Nat) (hn : n ≤ 1048576) (hp : pos ≤ d.length) :
+    GenK.readTurn (Kernels.rdOf d closed cap) (pos : Int) (n : Int) =
+      Kernels.liftAns pos (readFromStreamRaw d closed (fun _ => cap) pos n) :=
+  Kernels.readTurn_kernel d closed cap pos n hn hp
+
+/-- **underrun only while octets are missing, at the source level**: on any stream kind other than a complete `BytesIO`,
+    whatever the sizes of the short reads, the translated turn hands out the `n` octets exactly when they have all
+    arrived (the position moves past them), answers an underrun - the position back where the turn began - exactly
+    while they have not and the stream is open, and raises EndOfStreamError exactly once it is closed -/
+theorem source_underrun_only_when_missing (k : Kind) (hk : k ≠ .bytesIO) (d : Bytes) (closed : Bool) (cap pos n : Nat)
+    (hn : n ≤ 1048576) (hp : pos ≤ d.length) :
+    GenK.readTurn (Kernels.rdOf d closed cap) (pos : Int) (n : Int) =
+      Kernels.liftAns pos (readAns k d closed pos n) := by
+  rw [Kernels.readTurn_kernel d closed cap pos n hn hp, readFromStreamRaw_eq_readAns k hk d closed _ pos n hp]
+
+/-- non-vacuity: four octets asked at position 1 of `1 2 3 4 5 6`, two octets per read: gathered over two reads; of
+    `1 2 3` still open: underrun, position back at 1; closed: EndOfStreamError -/
+example : GenK.readTurn (Kernels.rdOf [1, 2, 3, 4, 5, 6] false 1) 1 4 = .ok (some [2, 3, 4, 5], 5) := by rfl
+example : GenK.readTurn (Kernels.rdOf [1, 2, 3] false 1) 1 4 = .ok (none, 1) := by rfl
+example : GenK.readTurn (Kernels.rdOf [1, 2, 3] true 1) 1 4 = .error (.lib "EndOfStreamError") := by rfl
 
 /-- **no new errors**: an error under a schedule is the error of the complete input -/
 theorem no_new_errors (k : Kind) (hk : k.Stable) (B : Nat) (p : Prog ε α) (hp : p.NoReadAll)
